@@ -31,7 +31,7 @@ def run(ctx):
     gen = ctx.cfg('Gen_IOStreams', name='Gen_sandbox', constants={'Family': '"sandbox"', 'Depth': 3, 'Rich': 1 if q else 2})
     ctx.tlc('Gen_IOStreams', gen, capture='cases.ndjson', timeout=900)
     ctx.cov['exhaustive'] = True
-    ctx.replay('cases.ndjson', label='sandbox', min_cases=2000, corrupt=iocommon.corrupt)
+    iocommon.replay(ctx, 'cases.ndjson', 'sandbox', iocommon.corrupt, 2000)
     # 3. code -> spec
     iocommon.traces(ctx, 'C12', 60 if q else 400)
     # 4. the model's action list vs the I/O call sites of the tree (last: a violation found above is the better answer)
